@@ -26,6 +26,24 @@ PROPS = {
         kani_thorough=[],
         design_ref="DESIGN.md section 4, C02",
     ),
+    "C03": dict(
+        title="Offset, DST flag and abbreviation for an instant match the TZ data",
+        verus=["tzif", "itime"],
+        kani_quick=[], kani_thorough=[],
+        design_ref="DESIGN.md section 4, C03",
+    ),
+    "C04": dict(
+        title="Civil-to-instant resolution finds gaps/folds exactly; strategies as documented",
+        verus=["tzif", "itime"],
+        kani_quick=[], kani_thorough=[],
+        design_ref="DESIGN.md section 4, C04",
+    ),
+    "C14": dict(
+        title="Transition iterators yield exactly the instants where zone offset info changes",
+        verus=["tzif", "itime"],
+        kani_quick=[], kani_thorough=[],
+        design_ref="DESIGN.md section 4, C14",
+    ),
 }
 
 NOT_APPLICABLE = {
@@ -35,4 +53,4 @@ NOT_APPLICABLE = {
 
 # properties with a design but no committed check yet (kept current as the build proceeds)
 NOT_YET = {p: "check not built yet in this session (design in DESIGN.md section 4); not claimed" for p in
-           ["C03", "C04", "C05", "C06", "C07", "C08", "C09", "C10", "C11", "C12", "C13", "C14", "C16", "C17", "C18", "C20"]}
+           ["C05", "C06", "C07", "C08", "C09", "C10", "C11", "C12", "C13", "C16", "C17", "C18", "C20"]}
